@@ -474,6 +474,46 @@ def _exemptions(repo, fn):
         up = pm.get(id(blk))
         return up is not None and up[0]["k"] == "If" and up[1] == "then"
 
+    def empty_iteration_return(ret):
+        """`let Some(xs) = map.get(k) else { return Ok(()) }; for x in xs { .. } Ok(())`: leaving when there is nothing to iterate
+        over is the empty iteration (what `.unwrap_or(&empty)` spells) -- everything after the `let` is loops over what it bound and
+        the final Ok"""
+        cur = ret
+        loc = None
+        while id(cur) in pm:
+            par, key = pm[id(cur)]
+            if par["k"] == "Local" and key == "else":
+                loc = par
+                break
+            if par["k"] in ("ForLoop", "While", "Loop", "Closure", "Fn"):
+                return False
+            cur = par
+        if loc is None or id(loc) not in pm:
+            return False
+        blk = pm[id(loc)][0]
+        if blk.get("k") != "Block" or blk is not fn.body:
+            return False
+        names = [nm for nm, _ in A.pat_bindings(loc["pat"])]
+        idx = next((i for i, s_ in enumerate(blk["stmts"]) if s_ is loc), None)
+        rest = blk["stmts"][idx + 1:] if idx is not None else None
+        if not rest or len(names) != 1:
+            return False
+        for s_ in rest:
+            e_ = s_.get("expr") if s_["k"] == "ExprStmt" else None
+            if e_ is None:
+                return False
+            if e_["k"] == "ForLoop":
+                it = e_["iter"]
+                while it["k"] in ("Ref", "Unary", "Paren") or (it["k"] == "MethodCall" and it["method"] in ("iter", "into_iter") and not it["args"]):
+                    it = it["expr"] if it["k"] != "MethodCall" else it["recv"]
+                if not (it["k"] == "Path" and it["path"] == names[0]):
+                    return False
+            elif e_["k"] == "Call" and e_["func"]["k"] == "Path" and e_["func"]["path"] == "Ok" and s_ is rest[-1]:
+                pass
+            else:
+                return False
+        return True
+
     consumed = set()
     ret_bool = "".join((fn.node.get("ret") or "").split()) == "bool"
 
@@ -509,6 +549,8 @@ def _exemptions(repo, fn):
             if (e is None or txt.startswith("Ok(")) and mode_only_return(n):
                 continue
             if txt in ("true", "false") and spelled_out_quantifier(n):
+                continue
+            if (e is None or txt.startswith("Ok(")) and empty_iteration_return(n):
                 continue
             if e is None or txt.startswith("Ok(") or txt in ("()", "true", "false", "None"):
                 out.append(("return-ok", guard_chain(n) + (" => " + txt[:40] if txt else ""), n["l"]))
